@@ -126,13 +126,16 @@ def _r6(ctx):
     ctx.rule("R-C11-6", floor=8, what="Miner / Fatigue methods do not write into the curve data of the object they are called on")
     eff = Effects(prog)
     classes = [prog.cls(MINER + ":MinerBase"), prog.cls(MINER + ":MinerElementary"), prog.cls(MINER + ":MinerHaibach"),
-               prog.cls("pylife.strength.fatigue:Fatigue")]
+               prog.cls("pylife.strength.fatigue:Fatigue"), prog.cls("pylife.materiallaws.woehlercurve:WoehlerCurve")]
     n = 0
     for ci in classes:
         for name, defs in ci.methods.items():
             f = defs[-1]
             if name in ("__init__", "_validate"):
                 continue
+            if ci.name == "WoehlerCurve" and not (name.startswith("miner_") or name in ("cycles", "load", "basquin_cycles",
+                                                                                     "basquin_load")):
+                continue        # of the base accessor only the Miner modifiers and the evaluation functions belong here
             summ = eff.summary(f)
             if summ is None:
                 raise AnalysisError("effect summary of %s unavailable" % f.key)
@@ -332,9 +335,22 @@ def _r3(ctx):
         f = prog.func(W + name)
         st = [s for s in f.node.body if isinstance(s, ast.Assign) and isinstance(s.targets[0], ast.Subscript)
               and const_value(s.targets[0].slice) == "k_2"]
-        if len(st) != 1:
+        val = st[0].value if len(st) == 1 else None
+        if val is None:
+            # one level of helper: `return self._helper(<value>)` whose body stores [...]['k_2'] = <its parameter>
+            for c in calls_in(f.node):
+                if isinstance(c.func, ast.Attribute) and is_self_attr(c.func) and len(c.args) == 1:
+                    h_ = prog.lookup_method(f.cls, c.func.attr)
+                    if h_ is None:
+                        continue
+                    hp = [q for q in h_.params if q != "self"]
+                    hs = [s_ for s_ in walk_function(h_.node) if isinstance(s_, ast.Assign) and isinstance(s_.targets[0], ast.Subscript)
+                          and const_value(s_.targets[0].slice) == "k_2" and isinstance(s_.value, ast.Name) and hp and s_.value.id == hp[0]]
+                    if len(hs) == 1:
+                        st, val = [c._parent if isinstance(c._parent, ast.stmt) else f.node.body[-1]], c.args[0]
+        if val is None:
             raise AnalysisError("%s: k_2 store not found" % name)
-        written[name] = (f, st[0], to_nf(st[0].value, atom=_k_atom))
+        written[name] = (f, st[0], to_nf(val, atom=_k_atom))
     h = prog.func(MINER + ":MinerHaibach.lifetime_multiple")
     pows = {}
     for n in ast.walk(h.node):
